@@ -4,10 +4,10 @@ package zzverif
 // client and fed to the real SecretController.Reconcile; after every event the secret held by every filter is logged.
 
 import (
-	"errors"
 	"bufio"
 	"context"
 	"encoding/json"
+	"errors"
 	"fmt"
 	"os"
 	"strings"
@@ -32,13 +32,13 @@ type secEvent struct {
 	V    string `json:"v"`
 }
 type secScenario struct {
-	ID      string     `json:"id"`
-	Refs    []string   `json:"refs"`
-	RefNs   []string   `json:"refNs"` // per filter: namespace written in the reference ("" = none)
-	Events  []secEvent `json:"events"`
-	CrossNs bool       `json:"crossNs"`
-	SameClient bool    `json:"sameClient"`
-	FaultyGets bool    `json:"faultyGets"` // the first read of every reconcile fails (a transient API-server error); a reconcile that errs is retried, as the work queue does // every filter uses the same OAuth client id (one client registered for several chains)
+	ID         string     `json:"id"`
+	Refs       []string   `json:"refs"`
+	RefNs      []string   `json:"refNs"` // per filter: namespace written in the reference ("" = none)
+	Events     []secEvent `json:"events"`
+	CrossNs    bool       `json:"crossNs"`
+	SameClient bool       `json:"sameClient"`
+	FaultyGets bool       `json:"faultyGets"` // the first read of every reconcile fails (a transient API-server error); a reconcile that errs is retried, as the work queue does // every filter uses the same OAuth client id (one client registered for several chains)
 }
 
 const ownNs, otherNs, holdFinalizer = "own", "other", "verif.example/hold"
